@@ -27,7 +27,7 @@ ASSUMPTIONS = [
 ]
 MIN_MONITORS = {"buffer-forms": 20000, "outcome": 60000, "fixed-point": 15000, "truncation": 4000, "zero-extension": 30000,
                 "bitio-read": 1000000, "bitio-subreader": 10000, "reject-array-length": 300, "reject-union-tag": 300,
-                "reject-delimiter-header": 300}
+                "reject-delimiter-header": 300, "result-mutated": 5000}
 THOROUGH_MIN_SCALE = 8
 
 
@@ -104,6 +104,17 @@ def check_bytes(ctx, pydsdl, cd, T, idx, b, header, kind, case):
                     ctx.violation("C07/not-fixed-point", "%r -> %s -> %r" % (obj, b2.hex(), obj2), case)
             except Exception as ex:  # noqa
                 ctx.violation("C07/not-fixed-point", "re-serializing %r failed: %r" % (obj, ex), case)
+    if oi[0] == "ok" and (len(b) + sum(b[:4])) % 4 == 0:
+        # the caller changes the returned object in place; decoding the same bytes again gives what it gave before
+        import copy
+
+        ctx.mon("result-mutated")
+        snap = copy.deepcopy(oi[1])
+        GV.scramble(oi[1], random.Random(len(b)))
+        oi = ("ok", snap)
+        again = outcome_impl(pydsdl, T, b, header)
+        if not same_outcome(oi, again):
+            ctx.violation("C07/state-after-mutation", "deserialize(%s, %s) gave %r, and after the caller changed that object in place it gives %r" % (T, b.hex(), snap, again), case)
     # the same bytes in another buffer type, and as a window into a larger buffer whose surroundings are not part of b
     junk = hashlib.sha256(b).digest()
     ctx.mon("buffer-forms")
